@@ -179,7 +179,12 @@ func (g *Generator) generateMockFieldAssignments(
 	}
 	visiting[key] = true
 
-	messageName := string(message.Desc.Name())
+	// Same key as the fieldExamples table: the message name with its enclosing messages,
+	// without the package (collectMessageFieldExamples prefixes nested declarations).
+	messageName := string(message.Desc.FullName())
+	if pkg := string(message.Desc.ParentFile().Package()); pkg != "" {
+		messageName = strings.TrimPrefix(messageName, pkg+".")
+	}
 
 	for _, field := range message.Fields {
 		fieldName := field.GoName
